@@ -89,6 +89,28 @@ def hbfreeze_programs(tier, seed):
     return out
 
 
+def freeze_sweep(profile, nb, kmax, tag):
+    """programs_fn: base programs of a profile, each re-run with one process frozen before its k-th hook, k = 1..kmax"""
+    def fn(tier, seed):
+        rng = random.Random("%s/%d" % (tag, seed))
+        n, km = (nb[0], kmax[0]) if tier == "quick" else (nb[1], kmax[1])
+        out = []
+        for _ in range(n):
+            base = gen.gen_program(rng, profile)
+            if len(base["procs"]) < 2:
+                continue
+            victim = rng.randrange(len(base["procs"]))
+            for k in range(1, km + 1):
+                p = json.loads(json.dumps(base))
+                st = dict(p.get("strat", {}))
+                st.update({"freeze": [victim, k], "p_spurious": 0.5, "max_spurious": 3, "seed": rng.randrange(1 << 30)})
+                p["strat"] = st
+                p["execs"] = 1
+                out.append(p)
+        return out
+    return fn
+
+
 # L2 conformance stage (hook-level trace validation against Kanal.tla): (programs per capacity, executions each)
 L2Q, L2T = (50, 2), (600, 4)
 
@@ -96,13 +118,16 @@ PLANS = {
     "C01": dict(mc=MC("sync", "mixed"), runs=[R("general", (250, 4000), (3, 6), "C01", True), R("sync", (150, 2000), (3, 6), "C01", True),
                       R("async", (150, 2000), (3, 6), "C01", True), R("chain", (100, 2000), (2, 6), "C01", True)]),
     "C02": dict(mc=MC("sync", "mixed"), runs=[R("chain_s", (250, 4000), (3, 6), "C02", True), R("fifo", (250, 5000), (4, 8), "C02"), R("general", (150, 2000), (3, 5), "C02")]),
-    "C03": dict(mc=MC("mixed", "async"), runs=[R("general", (400, 8000), (3, 6), None, True), R("sync", (150, 2000), (3, 6), None, True),
+    "C03": dict(mc=MC("mixed", "async"), spec_replay=True, runs=[R("general", (400, 8000), (3, 6), None, True), R("sync", (150, 2000), (3, 6), None, True),
                       R("async", (150, 3000), (3, 6), None, True), R("timed", (150, 3000), (3, 6), None, True),
                       R("chain", (150, 3000), (2, 6), None, True)]),
     "C05": dict(mc=MC("timed", "async"), runs=[R("general", (250, 4000), (3, 6), "C05", True), R("timed", (200, 3000), (3, 6), "C05", True),
                       R("async", (200, 3000), (3, 6), "C05", True), R("chain", (100, 2000), (2, 6), "C05", True)]),
     "C07": dict(mc=MC("sync", "async"),
                 runs=[R("hbfreeze", (0, 0), (1, 1), None, False, programs_fn=hbfreeze_programs, rawmon=[("HBMonitor", "HBMonitor.cfg")]),
+                      R("fdropfreeze", (0, 0), (1, 1), None, False, programs_fn=freeze_sweep("fdrop", (12, 150), (30, 45), "fdropfreeze"),
+                        rawmon=[("HBMonitor", "HBMonitor.cfg")]),
+                      R("fdrop", (200, 4000), (3, 6), None, False, rawmon=[("HBMonitor", "HBMonitor.cfg")]),
                       R("general", (200, 4000), (3, 6), None, False, rawmon=[("HBMonitor", "HBMonitor.cfg")]),
                       R("async", (150, 3000), (3, 6), None, False, rawmon=[("HBMonitor", "HBMonitor.cfg")]),
                       R("poll", (150, 3000), (3, 6), None, False, rawmon=[("HBMonitor", "HBMonitor.cfg")]),
@@ -118,12 +143,14 @@ PLANS = {
     "C04": dict(mc=MC("mixed"), runs=[R("integrity_" + pl, (n, n * 12), (2, 4), "C04", True, own_all=True)
                                       for pl, n in (("u8", 260), ("u16", 120), ("w1", 60), ("h4", 60), ("b3", 60), ("p5", 60), ("z0", 40), ("z64", 40))],
                 assume=["bit patterns: u8 exhaustive (every value on rotating paths), u16 boundary + random, larger classes checksum-tagged ids; the TLA+ side carries identities, bytes are compared by the harness projection id <-> bytes"]),
-    "C06": dict(mc=MC("sync", "async"), runs=[R("progress", (500, 8000), (3, 6), "ALL", True, own_all=True), R("chain", (100, 2000), (2, 4), None, True, own_all=True)]),
+    "C06": dict(mc=MC("sync", "async"), spec_replay=True, runs=[R("progress", (500, 8000), (3, 6), "ALL", True, own_all=True), R("chain", (100, 2000), (2, 4), None, True, own_all=True)]),
     "C09": dict(mc=MC("mixed"), runs=[R("mixed", (400, 8000), (3, 6), "C09", True, own_all=True)]),
     "C14": dict(mc=MC("try"), runs=[R("try", (300, 6000), (3, 6), None, True, rawmon=[("NonBlocking", "NonBlocking.cfg")]),
                                     R("tryfreeze", (300, 6000), (2, 4), None, True, rawmon=[("NonBlocking", "NonBlocking.cfg")])]),
-    "C15": dict(mc=MC("async"), runs=[R("fdrop", (400, 8000), (4, 8), "C15", True), R("chain", (150, 3000), (2, 6), "C15", True)]),
-    "C16": dict(mc=MC("async"), runs=[R("poll", (400, 8000), (4, 8), "C16", True)]),
+    "C15": dict(mc=MC("async"), runs=[R("fdrop", (400, 8000), (4, 8), "C15", True), R("chain", (200, 3000), (2, 6), "C15", True, own_all=True),
+                                      R("fdropfreeze", (0, 0), (1, 1), "C15", True, programs_fn=freeze_sweep("fdrop", (10, 150), (30, 45), "fdropfreeze15"))]),
+    "C16": dict(mc=MC("async"), runs=[R("poll", (400, 8000), (4, 8), "C16", True),
+                                      R("pollfreeze", (0, 0), (1, 1), "C16", True, programs_fn=freeze_sweep("poll", (14, 200), (30, 45), "pollfreeze"))]),
     "C17": dict(mc=[dict(module="SpinMutex", cfg=("MC_SpinMutex.cfg", "MC_SpinMutex.cfg"))], l2=False,
                 runs=[R("mutex", (200, 6000), (2, 6), None, False, rawmon=[("SpinMutexTrace", "SpinMutexTrace.cfg"), ("HBMonitor", "HBMonitor.cfg")]),
                       R("mutexfreeze", (200, 6000), (2, 4), None, False, rawmon=[("SpinMutexTrace", "SpinMutexTrace.cfg"), ("HBMonitor", "HBMonitor.cfg")])],
@@ -327,12 +354,27 @@ def run_check(prop, tier, seed, build=True):
     findings = []
     for mc in plan.get("mc", []):
         run_mc(mc, tier, wd, stats)
+    stage_errors = []
+
+    def stage(name, fn):
+        # a stage that breaks (e.g. on output corrupted by the code under test) must not hide what was already found
+        try:
+            fn()
+        except vlib.ToolError as e:
+            stage_errors.append("%s: %s" % (name, str(e)[:400]))
+            log("STAGE-ERROR %s: %s" % (name, str(e)[:400]))
+        except Exception as e:  # noqa
+            stage_errors.append("%s: %r" % (name, e))
+            log("STAGE-ERROR %s: %r" % (name, e))
     for k, run in enumerate(plan["runs"]):
-        run_one_config(prop, run, tier, seed, wd, "r%d" % k, stats, findings)
+        stage("run %d" % k, lambda: run_one_config(prop, run, tier, seed, wd, "r%d" % k, stats, findings))
         log("run %d (%s): executions=%d validated l0=%d l1=%d findings=%d" % (
             k, run["profile"], stats["executions"], stats["l0_validated"], stats["l1_validated"], len(findings)))
     if plan.get("l2", True):
-        run_l2_stage(prop, tier, seed, wd, stats, findings)
+        stage("l2", lambda: run_l2_stage(prop, tier, seed, wd, stats, findings))
+    if plan.get("spec_replay"):
+        import replay
+        stage("spec-replay", lambda: replay.run_stage(wd, tier, seed, stats, findings))
     known = load_known()
     rc = 0
     nviol = 0
@@ -359,7 +401,10 @@ def run_check(prop, tier, seed, build=True):
         hook_traces_validated_by_monitor=stats.get("raw_validated", 0),
         hook_traces_validated_l2=stats["l2_validated"], hook_events_validated_l2=stats["l2_events"],
         drift=stats["drift"],
-        samples=stats["samples"] or [dict(note="no execution recorded")],
+        spec_behaviours_replayed=stats.get("spec_behaviours_replayed", 0),
+        spec_behaviours_same_results=stats.get("spec_behaviours_same_results", 0),
+        spec_behaviours_followed_exactly=stats.get("spec_behaviours_followed_exactly", 0),
+        samples=(stats["samples"] or [dict(note="no execution recorded")]) + ([stats["spec_sample"]] if stats.get("spec_sample") else []),
         model_checking=stats["mc"],
         model_states=stats["mc_states"], model_transitions=stats["mc_trans"],
         executions=stats["executions"], history_events=stats["events"],
@@ -371,6 +416,8 @@ def run_check(prop, tier, seed, build=True):
     )
     vlib.write_evidence(prop, tier, seed, cov, wall, nviol, ASSUME_COMMON + plan.get("assume", []))
     log("%s %s: executions=%d states=%d violations=%d wall=%.1fs" % (prop, tier, stats["executions"], cov["states"], nviol, wall))
+    if rc == 0 and stage_errors:
+        raise vlib.ToolError("stage errors without a verdict: " + "; ".join(stage_errors))
     return rc
 
 
